@@ -86,14 +86,20 @@ def quantile(a, q, axis=0, newaxis=None, out=None, overwrite_input=False):
     0 / sample_quantile (2): 0.5 to 0.95
     array([-0.05802803,  1.66012041])
     """
+    if isinstance(axis, (tuple, list)):
+        # several dimensions reduced at once, as percentile does
+        a = a.flatten(axis, insert=0)
+        axis = 0
     pos, nm = a._get_axis_info(axis)
     if newaxis is None:
         newaxis = nm + '_quantile'
 
-    res = percentile(a, [qi*100 for qi in q], axis=axis, newaxis=newaxis, out=out, overwrite_input=overwrite_input)
+    pct = q*100 if np.isscalar(q) else [qi*100 for qi in q]
+    res = percentile(a, pct, axis=axis, newaxis=newaxis, out=out, overwrite_input=overwrite_input)
 
     # change the percentile axis into quantile axis
     if not np.isscalar(q):
-        res.axes[newaxis].values /= 100. # the new axis, not the position of the reduced one (an axis shared with `a`)
+        # the new axis, not the position of the reduced one (an axis shared with `a`); integer percentiles give a float axis
+        res.axes[newaxis].values = res.axes[newaxis].values / 100.
 
     return res
